@@ -50,6 +50,31 @@ template <class T> struct PoolT {
                 }
             }
             size_t n = b->size();
+            // every other observer is a function of (data(), size()): a disagreement shows as a where-flag the model never produces
+            {
+                const B &cb = *b; const char *bad = nullptr;
+                if (cb.data() != p || cb.c_str() != p || b->begin() != p || cb.begin() != p || cb.cbegin() != p) bad = "!ptr-observers";
+                else if (b->end() != p + n || cb.end() != p + n || cb.cend() != p + n) bad = "!end";
+                else if (cb.empty() != (n == 0)) bad = "!empty";
+                else if (&b->front() != p || &cb.front() != p || &b->back() != (n ? p + n - 1 : p) || &cb.back() != (n ? p + n - 1 : p)) bad = "!front-back";
+                else if (b->rbegin().base() != p + n || cb.rbegin().base() != p + n || cb.crbegin().base() != p + n ||
+                         b->rend().base() != p || cb.rend().base() != p || cb.crend().base() != p) bad = "!reverse-iterators";
+                else {
+                    static const T sub_text[1] = {T(0)};
+                    if (cb.c_str(sub_text) != (n ? p : sub_text)) bad = "!c_str-substitute";
+                    else if (cb.view().data() != p || cb.view().size() != n || cb.view(0).size() != n || (n >= 2 && (cb.view(1).data() != p + 1 || cb.view(1).size() != n - 1 || cb.view(1, 1).size() != 1))) bad = "!view";
+                    for (size_t i = 0; i < n && !bad; ++i) if (&b->at(i) != p + i || &cb.at(i) != p + i || &(*b)[i] != p + i || &cb[i] != p + i) bad = "!at";
+                    if (!bad) {
+                        for (size_t i : {n, n + 1, (size_t)-1}) {
+                            bool threw = false, threw_c = false;
+                            try { (void)b->at(i); } catch (const std::out_of_range &) { threw = true; }
+                            try { (void)cb.at(i); } catch (const std::out_of_range &) { threw_c = true; }
+                            if (!threw || !threw_c) bad = "!at-range";
+                        }
+                    }
+                }
+                if (bad) where = bad;
+            }
             if (!out.empty()) out += ",";
             out += "o" + std::to_string(o) + ":" + std::to_string(n) + ":" + hex_units(p, n) + ":";
             put_hex(out, unit_val(p[n]), 2 * sizeof(T));
